@@ -34,7 +34,7 @@
 //! * c12-view-buffer-index.diff — view kernel always reads data buffer 0: the debug build's unsafe-precondition
 //!   check aborts the process (exit 2 "ended abnormally"), i.e. noticed but not as a VIOLATION line; replaced by
 //!   the threshold probe above.
-//! Quick: 30 000 cases, 8 shards (3 s on an idle machine, ~35 s with all cores busy elsewhere); thorough: 2 000 000 cases, 16 shards,
+//! Quick: 30 000 cases, 8 shards (3 s on an idle machine, ~35 s with all cores busy elsewhere); thorough: 1 000 000 cases, 16 shards,
 //! rows up to 100.
 use arrow::array::ArrayRef;
 use datafusion_common::ScalarValue;
@@ -145,7 +145,7 @@ impl Property for C12 {
             .boxed()
     }
     fn budget(&self, tier: Tier) -> Budget {
-        Budget::new(tier.pick(30_000, 2_000_000), tier.pick(8, 16)).min_nontrivial(tier.pick(3_000, 100_000))
+        Budget::new(tier.pick(30_000, 1_000_000), tier.pick(8, 16)).min_nontrivial(tier.pick(3_000, 50_000))
     }
     fn rule(&self) -> String {
         "1-4 key columns of generated Arrow types (nested to depth 2, dictionary / run-end wrapped), 0-40 rows from small value pools, each column rendered under two \
